@@ -114,6 +114,30 @@ def run(ctx):
                 for x in chunk:
                     planted.add((field, x))
                 archives.append(('%s L%d bytes %02x..%02x' % (field, lvl, chunk[0], chunk[-1]), arc.archive(ms)))
+    # long strings: names, paths, targets and owner names of 200..1000 bytes with the hostile byte last, first, and at the
+    # positions around 255/256 (whatever fixed-size buffers the printing code may use)
+    for fld in ('name', 'path', 'target', 'user'):
+        for hb in (0x1b, 0x9b, 0x7f, 0x07):
+            ms = []
+            for k, total in enumerate((200, 250, 254, 255, 256, 257, 258, 300, 511, 512, 513, 1000)):
+                for pos in ((total - 1, 0, 254, 255, 256) if ctx.tier == 'thorough' else (total - 1, (0, 254, 255, 256)[k % 4])):
+                    if pos >= total:
+                        continue
+                    body = bytearray(b'L%03d' % (k * 7 + pos % 7) + b'a' * (total - 4))
+                    body[pos] = hb
+                    body = bytes(body)
+                    if fld == 'name':
+                        mm = H.simple_member(body, DATA, level=2)
+                    elif fld == 'path':
+                        mm = H.simple_member(b'f%d' % len(ms), DATA, level=2, path=body + b'/')
+                    elif fld == 'target':
+                        mm = H.symlink_member(b'lnk%d' % len(ms), body, level=2)
+                    else:
+                        mm = H.simple_member(b'o%d' % len(ms), DATA, level=2, extra_exts=[(0x53, body), (0x52, body[::-1])])
+                    ms.append(arc.Member(mm, DATA if fld != 'target' else b'', DATA if fld != 'target' else b'', kind='symlink' if fld == 'target' else 'file'))
+            if fld in ('name', 'path'):
+                ms = ms + ms[:6]
+            archives.append(('long-%s byte %02x' % (fld, hb), arc.archive(ms)))
     # error paths: a regular file in the way of a parent directory; unsupported method
     for hb in (0x1b, 0x07, 0x9b, 0xff if False else 0xfe, 0x7f):
         bn = b'blo' + bytes([hb]) + b'cker'
@@ -126,8 +150,8 @@ def run(ctx):
     jobs = []
     n = 0
     for desc, A in archives:
-        modes = MODES if (ctx.tier == 'thorough' or desc.startswith('error-path')) else rnd.sample(MODES, 8) + ['v', 'vv']
-        if desc.startswith(('name', 'path')):
+        modes = MODES if (ctx.tier == 'thorough' or desc.startswith(('error-path', 'long-'))) else rnd.sample(MODES, 8) + ['v', 'vv']
+        if desc.startswith(('name', 'path', 'long-name', 'long-path')):
             modes = list(modes) + ['x', 'e']
         for mode in sorted(set(modes)):
             if mode[0] == 'p' and 'n' not in mode and desc.startswith('method'):
@@ -150,7 +174,7 @@ def run(ctx):
     ctx.cov['fields'] = fields
     ctx.cov['byte_values_planted_per_field'] = {f: len([1 for (ff, x) in planted if ff == f]) for f in fields}
     ctx.cov['exhaustive'] = all(v == 255 for v in ctx.cov['byte_values_planted_per_field'].values())
-    ctx.cov['rule'] = ('one archive per (field, level, group of 16 byte values); every byte 0x01..0xFF is planted in every field; each archive is '
+    ctx.cov['rule'] = ('one archive per (field, level, group of 16 byte values); every byte 0x01..0xFF is planted in every field; strings of 200..1000 bytes with a hostile byte last / first / at 254..256; each archive is '
                        'run through the listed commands as user nobody under the fs guard; distinct by archive+command; non-trivial = the run produced output')
     ctx.sample({'archive': archives[0][0], 'hex': archives[0][1].hex()[:160], 'modes': MODES})
     shutil.rmtree(base, ignore_errors=True)
